@@ -668,6 +668,17 @@ def check_guard(rep, site, entry, crates, steps, term, marked=()):
                 return False, "retain predicate is not a closure of this function"
             eff = effects(cl, cl.live, depth=1) | {mir.norm(x.callee) for x in cl.calls() if HASH_NAME.search(x.callee)}
             bad = allowed(eff, allow)
+            # an allowed workspace callee must itself be unable to carry state from one element to the next: no `&mut`
+            # parameter and no write through a reference parameter (re-derived on its MIR on every run)
+            for e in sorted(eff):
+                if e in bad or STD.search(e) or e == "<indirect call>":
+                    continue
+                g2 = resolve_fn(crates, crates[site.crate], e)
+                if g2 is None:
+                    bad.append(e + " (body not in the analysed crates)")
+                    continue
+                if any(g2.locals[i].startswith("&mut ") for i in range(1, g2.argc + 1)) or writes_through_params(g2):
+                    bad.append(e + " (can write through its parameters)")
             return not bad, ("predicate calls " + ", ".join(bad)) if bad else "predicate only consults " + ", ".join(sorted(short(e) for e in eff))
         if kind == "fold":
             return True, f"terminal `{info}`"
